@@ -1,5 +1,5 @@
 """Per-property decision procedures (DESIGN.md section 7)."""
-import itertools, json, re
+import itertools, json, re, struct
 from . import core, run, streams, gotypes
 from .core import log
 
@@ -1045,6 +1045,53 @@ def c17(ctx):
                 if npairs % 3 == 0:      # ... the documents arriving through a codec (names by reference), key cache on
                     cases.append(case("C17", "goreuse", "go", sub=dict(component="unfolder", history=[a], T=b["T"], V=b["V"], via=("json", "ubjson", "cborl")[npairs % 9 // 3],
                                                                         keycache=1 + npairs % 2), origin="unfolder history via codec, key cache"))
+    # ONE static type whose interface fields (plain, inlined, in slices and maps) hold values of different dynamic types from
+    # document to document: whatever an iterator remembers about "the" type of such a field must follow the value
+    def Fd(name, t, opts=()):
+        return dict(name=name, tname="", opts=list(opts), t=t)
+
+    def Iv(x):
+        return dict(k="int", ty="int", v=streams.canon(x))
+
+    def Sv(x):
+        return dict(k="str", ty="string", v=list(x))
+    SA = dict(k="struct", f=[Fd("Id", dict(k="int")), Fd("Host", dict(k="string"))])
+    SB = dict(k="struct", f=[Fd("Id", dict(k="int")), Fd("Pod", dict(k="string"))])
+    SC = dict(k="struct", f=[Fd("Zone", dict(k="string")), Fd("Id", dict(k="int")), Fd("W", dict(k="float64"))])
+    MI, MF = dict(k="map", e=[dict(k="int")]), dict(k="map", e=[dict(k="iface")])
+    dyns = [(SA, dict(k="struct", f=[Iv(1), Sv(b"alpha")])), (SB, dict(k="struct", f=[Iv(2), Sv(b"beta")])),
+            (SC, dict(k="struct", f=[Sv(b"z"), Iv(3), dict(k="f64", ty="float64", v=list(struct.pack(">d", 2.5)))])),
+            (dict(k="ptr", e=[SA]), dict(k="ptr", e=[dict(k="struct", f=[Iv(4), Sv(b"gamma")])])),
+            (dict(k="ptr", e=[SB]), dict(k="ptr", e=[dict(k="struct", f=[Iv(5), Sv(b"delta")])])),
+            (MI, dict(k="map", m=[dict(key=list(b"m"), val=Iv(6))])),
+            (MF, dict(k="map", m=[dict(key=list(b"g"), val=dict(k="iface", dyn=[dict(k="string")], e=[Sv(b"s")]))]))]
+    IFT = dict(k="iface")
+
+    def ifv(d):
+        return dict(k="iface", dyn=[d[0]], e=[d[1]])
+    holders = [lambda d: (dict(k="struct", f=[Fd("P", dict(k="int")), Fd("In", IFT, ["inline"]), Fd("Q", dict(k="int"))]), dict(k="struct", f=[Iv(7), ifv(d), Iv(8)])),
+               lambda d: (dict(k="struct", f=[Fd("A", IFT), Fd("Q", dict(k="int"))]), dict(k="struct", f=[ifv(d), Iv(8)])),
+               lambda d: (dict(k="struct", f=[Fd("A", IFT, ["omitempty"]), Fd("In", IFT, ["squash"])]), dict(k="struct", f=[ifv(d), ifv(d)])),
+               lambda d: (dict(k="slice", e=[IFT]), dict(k="slice", e=[ifv(d), ifv(d)])),
+               lambda d: (dict(k="map", e=[IFT]), dict(k="map", m=[dict(key=list(b"k"), val=ifv(d))])),
+               lambda d: (IFT, ifv(d))]
+    for hn, mk in enumerate(holders):
+        for a in dyns:
+            for b in dyns:
+                if a is b:
+                    continue
+                (Ta, Va), (Tb, Vb) = mk(a), mk(b)
+                cases.append(case("C17", "goreuse", "go", sub=dict(component="iter", history=[dict(T=Ta, V=Va)], T=Tb, V=Vb), origin="iter history, interface field with another dynamic type"))
+                if hn in (1, 3, 4, 5) and (dyns.index(a) + dyns.index(b)) % 2:
+                    cases.append(case("C17", "goreuse", "go", sub=dict(component="unfolder", history=[dict(T=Ta, V=Va)], T=Tb, V=Vb, via=("", "json", "cborl")[hn % 3]),
+                                      origin="unfolder history, interface field with another dynamic type"))
+    # ... and within ONE document: a slice of holders whose inlined interface fields alternate between dynamic types
+    for a in dyns[:5]:
+        for b in dyns[:5]:
+            if a is not b:
+                (Ta, Va), (_, Vb) = holders[0](a), holders[0](b)
+                cases.append(case("C17", "goreuse", "go", sub=dict(component="iter", history=[], T=dict(k="slice", e=[Ta]), V=dict(k="slice", e=[Va, Vb, Va])),
+                                  origin="interface field alternating between dynamic types within a document"))
     # documents of different shape read into ONE input buffer: the member names of the probe land on the bytes of the previous document's names
     def sv(x):
         return dict(k="str", ty="string", v=list(x))
@@ -1232,6 +1279,35 @@ def c11(ctx):
             cases.append(case("C11", "gort", "go", sub=dict(T=r["T"], V=v, via=via), origin="GenGoType"))
         if n % 4 == 0:      # the optional key cache of the unfolder must not be visible in the result
             cases.append(case("C11", "gort", "go", sub=dict(T=r["T"], V=v, via=vias[-1], keycache=1 + (n // 4) % 3), origin="GenGoType, key cache"))
+    # typed slices and maps of every element kind with the extreme values of that kind - as such, below interface{} (where the
+    # ANNOUNCED element type alone decides what is built) and behind a field
+    def leafvals(K):
+        lk = gotypes.kind_of_leaf(K)
+        if lk == "int":
+            lo, hi = streams.RANGES[K]
+            vs = [streams.canon(x) for x in (hi, lo, 1, hi - 1, (hi + 1) // 2)]
+        elif lk == "str":
+            vs = [list(b"a\\"), [], list("é\n".encode())]
+        elif lk == "f64":
+            vs = streams.F64_BITS[:4]
+        elif lk == "f32":
+            vs = streams.F32_BITS[:4]
+        else:
+            vs = [[1], [0], [1]]
+        return [dict(k=lk, ty=K, v=v) for v in vs]
+    for K in ("int8", "int16", "int32", "int64", "int", "uint8", "uint16", "uint32", "uint64", "uint", "float32", "float64", "bool", "string"):
+        lv = leafvals(K)
+        ST, MT = dict(k="slice", e=[dict(k=K)]), dict(k="map", e=[dict(k=K)])
+        SV = dict(k="slice", e=lv)
+        MV = dict(k="map", m=[dict(key=list(b"k%d" % j), val=x) for j, x in enumerate(lv)])
+        IF = dict(k="iface")
+        progs = [(ST, SV), (MT, MV), (IF, dict(k="iface", dyn=[ST], e=[SV])), (IF, dict(k="iface", dyn=[MT], e=[MV])),
+                 (dict(k="struct", f=[dict(name="A", tname="", opts=[], t=IF), dict(name="B", tname="", opts=[], t=ST)]),
+                  dict(k="struct", f=[dict(k="iface", dyn=[ST], e=[SV]), SV])),
+                 (dict(k="slice", e=[IF]), dict(k="slice", e=[dict(k="iface", dyn=[ST], e=[SV]), dict(k="iface", dyn=[MT], e=[MV])]))]
+        for T, V in progs:
+            for via in ("direct", "json", "ubjson", "cborl"):
+                cases.append(case("C11", "gort", "go", sub=dict(T=T, V=V, via=via), origin="typed slice / map of every element kind with extreme values"))
     # deep generic data below interface{} (the unfolder's scratch buffers grow with the nesting depth)
     def deep(d, kind):
         leaf = dict(k="iface", dyn=[dict(k="int")], e=[dict(k="int", ty="int", v=streams.canon(d))])
@@ -1457,6 +1533,9 @@ def c20(ctx):
                   ("json", "int"), ("cborl", "struct"), ("ubjson", "ifc")]
         for fmt, target in ([combos[n % 9]] if ctx.quick else [combos[n % 9], combos[(n + 4) % 9], combos[(n + 7) % 9]]):
             cases.append(case("C20", "keycache", fmt, sub=dict(cap=r["cap"], hist=r["hist"], target=target, model_lru=r["lru"], sharedbuf=(n // 9) % 2 == 1), origin="SFKeyCache"))
+            if n % 11 == 3:                      # member names around and beyond 1 KiB / 4 KiB (sub.keylen = L: L-1, L, L, L+1, L+476, 2L bytes)
+                cases.append(case("C20", "keycache", fmt, sub=dict(cap=r["cap"], hist=r["hist"], target=target, model_lru=[], sharedbuf=n % 2 == 0,
+                                                                    keylen=(1024, 4096, 512, 256, 2048)[(n // 11) % 5]), origin="SFKeyCache, long member names"))
             if n % 7 == 0 and 0 in r["hist"]:    # the cache configured again between two documents (diagnostic LRU order not compared then)
                 cases.append(case("C20", "keycache", fmt, sub=dict(cap=r["cap"], hist=r["hist"], target=target, model_lru=[], sharedbuf=n % 2 == 0, reenable=True), origin="SFKeyCache, EnableKeyCache again"))
     number(cases)
@@ -1506,6 +1585,15 @@ def c14(ctx):
                                               any("inline" in g["opts"] or "squash" in g["opts"] for g in f["t"]["f"]) for f in T["f"])
     generic = [dict(k="iface"), dict(k="slice", e=[dict(k="iface")]), dict(k="map", e=[dict(k="iface")])]        # always among the targets
     generic += [T for T in types if nested_inline(T)]      # ... as are structs that inline a struct which inlines another (field offsets add up)
+    # ... and struct VALUES (not pointers) at non-zero offsets with members behind them, two levels deep, also as
+    # elements of slices / maps / behind pointers: a null or a mismatch there meets the members that follow
+    def F(name, t, tname=""):
+        return dict(name=name, tname=tname, opts=[], t=t)
+    i64 = dict(k="int64")
+    inner = dict(k="struct", f=[F("X", i64), F("Y", dict(k="string"))])
+    for wrap in (lambda t: t, lambda t: dict(k="ptr", e=[t]), lambda t: dict(k="slice", e=[t]), lambda t: dict(k="map", e=[t])):
+        outer = dict(k="struct", f=[F("Pad", i64), F("A", wrap(inner)), F("B", i64), F("C", dict(k="string"))])
+        generic += [outer, dict(k="struct", f=[F("P", i64), F("O", wrap(outer)), F("Z", i64)]), dict(k="slice", e=[outer]), dict(k="map", e=[outer])]
     types = generic + [T for T in types if T.get("k") != "iface"][: 500 if ctx.quick else 3000] + gotypes.user_types()      # ... and targets with user-defined unfolders
     others = list(types)
     cases = []
@@ -1592,6 +1680,8 @@ def enc_doc(fmt, v):
         if isinstance(v, str):
             b = v.encode()
             return head(3, len(b)) + list(b)
+        if isinstance(v, (bytes, bytearray)):
+            return head(2, len(v)) + list(v)
         if isinstance(v, list):
             return head(4, len(v)) + [x for e in v for x in enc_doc(fmt, e)]
         return head(5, len(v)) + [x for k, e in v.items() for x in enc_doc(fmt, k) + enc_doc(fmt, e)]
@@ -1600,6 +1690,8 @@ def enc_doc(fmt, v):
     if isinstance(v, str):
         b = v.encode()
         return [ord("S")] + ulen(len(b)) + list(b)
+    if isinstance(v, (bytes, bytearray)):      # typed array of uint8 (bytes) / of char (bytearray)
+        return [ord("["), ord("$"), ord("U") if isinstance(v, bytes) else ord("C"), ord("#")] + ulen(len(v)) + list(v)
     if isinstance(v, list):
         return [ord("[")] + [x for e in v for x in enc_doc(fmt, e)] + [ord("]")]
     out = [ord("{")]
@@ -1666,12 +1758,25 @@ def c15(ctx):
                     if ctx.quick and (cut + L + n) % 2:
                         continue
                     cases.append(case("C15", "alias", fmt, doc=doc, cuts=[cut], sub=dict(target=("ifc", "map")[n], follow=follow, gc=False), origin="boundary length %d" % L))
+    # byte strings / typed arrays longer than what the unfolder allocates up front for an announced length (4096 elements),
+    # several per document and again in the follow-up document: what was stored must not be collected in reused memory
+    def blob(L, off, cls=bytes):
+        return cls((j * 13 + off) % 251 for j in range(L))
+    for L in (4095, 4096, 4097, 5000):
+        for fmt in ("ubjson", "cborl"):
+            for cls in ((bytes, bytearray) if fmt == "ubjson" else (bytes,)):
+                val = {"a": blob(L, 1, cls), "b": blob(L, 2, cls), "s": [blob(L, 3, cls), "t"], "m": {"x": blob(L + 3, 4, cls)}}
+                fol = {"a": blob(L + 7, 5, cls), "s": [blob(L, 6, cls)]}
+                doc, follow = enc_doc(fmt, val), enc_doc(fmt, fol)
+                for j, cuts in enumerate(([], [len(doc) // 2], [L // 2, L + 9, 2 * L + 50])):
+                    cases.append(case("C15", "alias", fmt, doc=doc, cuts=cuts, sub=dict(target="ifc", follow=follow, gc=False, twice=(j == 1)), origin="byte strings of %d bytes" % L))
     number(cases)
     tf, st = core.run_harness(ctx, cases, binary=race_bin, deadline=20000)
     failed, nv = core.tlc_validate(ctx, "TraceCodec", tf)
     return run.decide(
         ctx, "TraceCodec", cases, tf, failed, nv, level_note="", harness_bin=race_bin,
-        rule="seeded documents (JSON, UBJSON, CBOR) whose strings and keys cover every delivery kind (short, escaped, non-ASCII, longer "
+        rule="documents with several byte strings / typed uint8 and char arrays of 4095-5000 bytes (around the 4096 elements the unfolder allocates up front) "
+             "into interface{}, followed by another such document; seeded documents (JSON, UBJSON, CBOR) whose strings and keys cover every delivery kind (short, escaped, non-ASCII, longer "
              "than the parser's internal 64-byte buffer, empty) x chunkings (whole, bytewise, single cuts at sampled positions, seeded "
              "multi-cuts: the chunking decides whether a token is handed over from the caller's chunk, the parser's buffer or fresh "
              "memory), each chunk a fresh buffer overwritten right after its Write, unfolded into interface{}, struct, and map targets, "
